@@ -133,7 +133,7 @@ func calleeName(com *ssa.CallCommon) string {
 
 // closureReturnsOnlyNil: every return of the literal passed as a callback yields the nil error constant.
 func closureReturnsOnlyNil(v ssa.Value) bool {
-	cl := core.ClosureOf(v)
+	cl := resolveWrapper(core.ClosureOf(v)) // a method value stands for the method
 	if cl == nil || cl.Blocks == nil {
 		return false
 	}
@@ -385,7 +385,7 @@ func c09(c *core.Ctx, r *core.Report) {
 				byClass["never-fails"]++
 				okSites++
 				r.Hold("C09.E1", cons, pos, "exception: strings.Builder.WriteString is documented to always return a nil error")
-			case u.Class == core.ErrDropped && anyClosureArgReturnsOnlyNil(call) && (strings.HasSuffix(name, "Holder).Walk") || strings.HasSuffix(name, "reflectx.ForEachFieldV2") || strings.HasSuffix(name, "reflectx.ForEachField")):
+			case u.Class == core.ErrDropped && anyClosureArgReturnsOnlyNil(call) && forwardsOnlyCallbackError(c, com.StaticCallee(), 0):
 				byClass["callback-returns-nil"]++
 				okSites++
 				r.Hold("C09.E1", cons, pos, "exception: the iterator only forwards its callback's error and the callback passed here returns the nil constant on every path")
@@ -430,6 +430,58 @@ func c09(c *core.Ctx, r *core.Report) {
 
 	// ---- E3
 	c09E3(c, r, fns)
+}
+
+// forwardsOnlyCallbackError: every error the in-scope iterator fn can return is the nil constant or the result of
+// calling one of its func-typed parameters (or of an iterator of the same kind it hands that parameter to).
+func forwardsOnlyCallbackError(c *core.Ctx, fn *ssa.Function, depth int) bool {
+	if fn == nil || fn.Blocks == nil || !c.InScope(fn) || depth > 2 {
+		return false
+	}
+	isCallback := func(v ssa.Value) bool {
+		p, ok := v.(*ssa.Parameter)
+		if !ok {
+			return false
+		}
+		_, isSig := p.Type().Underlying().(*types.Signature)
+		return isSig
+	}
+	n := 0
+	for _, ret := range core.Returns(fn) {
+		if len(ret.Results) == 0 {
+			return false
+		}
+		for _, o := range core.Origins(ret.Results[len(ret.Results)-1], nil) {
+			if core.IsNilConst(o) {
+				continue
+			}
+			if ex, ok := o.(*ssa.Extract); ok {
+				o = ex.Tuple
+			}
+			call, ok := o.(*ssa.Call)
+			if !ok {
+				return false
+			}
+			com := call.Common()
+			switch {
+			case !com.IsInvoke() && com.StaticCallee() == nil && isCallback(com.Value):
+				n++
+			case com.StaticCallee() != nil && com.StaticCallee() != fn && forwardsOnlyCallbackError(c, com.StaticCallee(), depth+1):
+				passes := false
+				for _, a := range com.Args {
+					passes = passes || isCallback(a)
+				}
+				if !passes {
+					return false
+				}
+				n++
+			case com.StaticCallee() == fn:
+			default:
+				return false
+			}
+		}
+	}
+	return n > 0
 }
 
 func anyClosureArgReturnsOnlyNil(call *ssa.Call) bool {
@@ -503,7 +555,9 @@ func optionalSkip(c *core.Ctx, call *ssa.Call, u core.ErrUse) bool {
 }
 
 // c09E3: IsRequired decisions.
-func c09E3(c *core.Ctx, r *core.Report, fns []*ssa.Function) { requiredDecisionRules(c, r, "C09.E3", fns) }
+func c09E3(c *core.Ctx, r *core.Report, fns []*ssa.Function) {
+	requiredDecisionRules(c, r, "C09.E3", fns)
+}
 
 // requiredDecisionRules: at every IsRequired() decision the required edge ends in an error, the optional edge writes nothing.
 func requiredDecisionRules(c *core.Ctx, r *core.Report, rule string, fns []*ssa.Function) {
@@ -532,16 +586,21 @@ func requiredDecisionRules(c *core.Ctx, r *core.Report, rule string, fns []*ssa.
 				tEdge, fEdge := iff.Block().Succs[0], iff.Block().Succs[1]
 				// true edge: only error returns, never the loop again
 				okTrue, nRet := true, 0
-				for b := range core.ReachableFrom(tEdge, nil) {
+				trueReach := core.ReachableFrom(tEdge, nil)
+				for b := range trueReach {
 					if b == iff.Block() {
 						okTrue = false // re-enters the decision: continued
 					}
-					if ret, isRet := b.Instrs[len(b.Instrs)-1].(*ssa.Return); isRet {
-						nRet++
-						if core.ClassifyReturn(ret) != core.RetError {
-							okTrue = false
-						}
+				}
+				// path by path (a single-exit `return err` merges this edge with the others)
+				if core.WalkReturns(iff, true, nil, func(ret *ssa.Return, nilness int, resolved ssa.Value) bool {
+					nRet++
+					if nilness != 1 && core.ClassifyReturn(ret) != core.RetError && !(resolved != nil && !core.IsNilConst(resolved) && core.NonNilAtFrom(resolved, ret, trueReach)) {
+						okTrue = false
 					}
+					return true
+				}) {
+					okTrue = false
 				}
 				r.Check(okTrue && nRet > 0, rule, cons+":required=>error", c.Pos(iff.Cond.Pos()), "when the point is required every continuation is a non-nil error return")
 				// false edge: up to the next iteration / return, no field write
